@@ -139,6 +139,22 @@ CHECKS += [
      "note": "Only texts the loader accepts and whose original values can be read; a section is never mixed with its own sub-section."},
 ]
 
+CHECKS += [
+    {"id": "C24", "engine": "opseq", "level": "model_checking",
+     "technique": "level-synchronous explicit-state BFS over tag command histories on real SQLite files against a reference multimap",
+     "text": "All histories of <=3 (quick) / <=4 (thorough) `redun tag add|update|rm` commands, executed by the real command handlers, over two "
+     "entities, two keys, 3-4 JSON values incl. multi-pair and key-only forms; a state is a database file, merged when tag and tag_edit tables "
+     "are equal; current tags of every entity equal the reference model as a set; the edit graph is acyclic.",
+     "note": "Multiplicity of a current pair is not compared; entities are Value records."},
+    {"id": "C25", "engine": "opseq", "level": "model_checking",
+     "technique": "level-synchronous explicit-state BFS over handle advance/merge/rollback histories on real SQLite files against a lineage model; "
+     "exhaustive edit/revert histories of a handle pipeline",
+     "text": "All well-formed histories of <=4 (quick) / <=5 (thorough) backend operations (fork, call, merge, rollback) on handle states up to "
+     "derivation depth 3; is_valid_handle of every known state equals the reference lineage model after every operation. Plus all 4^L "
+     "body histories (L=3/4) of a two-stage handle pipeline: stages whose incoming state was invalidated run again, result hashes equal a fresh backend's.",
+     "note": "Well-formed = advance only from valid or new states, rollback only to valid states (what the scheduler does)."},
+]
+
 _ALL = [f"C{i:02d}" for i in range(1, 39)]
 _claimed = {c["id"] for c in CHECKS}
 _REASONS = {}
